@@ -37,7 +37,21 @@ endef
 $(eval $(call LOCK_VARIANT,1))
 $(eval $(call LOCK_VARIANT,10))
 
-lock: $(B)/lock_r1/lock_harness $(B)/lock_r10/lock_harness
+# libFuzzer second engine for the lock family (clang; instrumented library + interpreter give the coverage signal)
+LFUZZ := -std=c++20 -g -O1 -fno-omit-frame-pointer -fsanitize=fuzzer-no-link,address,undefined -fno-sanitize-recover=undefined -pthread -I$(H) -MMD -MP
+$(B)/lock_fuzz/repo_%.o: $(REPO)/src/lock/%.cpp $(H)/vsched_prelude.hpp $(H)/vsched_api.hpp
+	@mkdir -p $(dir $@)
+	clang++ $(LFUZZ) $(PRELUDE) $(REPODEF) -DDBGROUP_MAX_THREAD_NUM=8 -DCPP_UTILITY_SPINLOCK_RETRY_NUM=1 -I$(REPO)/include -c $< -o $@
+$(B)/lock_fuzz/interp_lock.o: $(H)/interp_lock.cpp
+	@mkdir -p $(dir $@)
+	clang++ $(LFUZZ) $(PRELUDE) $(REPODEF) -DDBGROUP_MAX_THREAD_NUM=8 -DCPP_UTILITY_SPINLOCK_RETRY_NUM=1 -I$(REPO)/include -c $< -o $@
+$(B)/lock_fuzz/%.o: $(H)/%.cpp
+	@mkdir -p $(dir $@)
+	clang++ $(LFUZZ) -c $< -o $@
+$(B)/lock_fuzz/lock_fuzz: $(B)/lock_fuzz/lock_fuzz.o $(B)/lock_fuzz/interp_lock.o $(B)/lock_fuzz/vsched_rt.o $(foreach s,$(LOCK_SRCS),$(B)/lock_fuzz/repo_$(s).o)
+	clang++ -std=c++20 -fsanitize=fuzzer,address,undefined -pthread $^ -o $@
+
+lock: $(B)/lock_r1/lock_harness $(B)/lock_r10/lock_harness $(B)/lock_fuzz/lock_fuzz
 
 # ---------------------------------------------------------------- thread family, one variant per capacity
 THREAD_SRCS := id_manager epoch_manager epoch_guard component/epoch
@@ -64,7 +78,18 @@ $(B)/zipf/zipf_main.o: $(H)/zipf_main.cpp
 	$(CXX) $(COMMON) -I$(REPO)/include -c $< -o $@
 $(B)/zipf/zipf_harness: $(B)/zipf/zipf_main.o $(B)/zipf/repo_zipf.o
 	$(CXX) $(STD) $(SAN) -pthread $^ -lrapidcheck -o $@
-zipf: $(B)/zipf/zipf_harness
+# libFuzzer second engine (thorough tier): clang + fuzzer,address,undefined
+FUZZ_CXX ?= clang++
+FUZZFLAGS := -std=c++20 -g -O1 -fno-omit-frame-pointer -fsanitize=fuzzer-no-link,address,undefined -fno-sanitize-recover=undefined -I$(H) -I$(REPO)/include -MMD -MP
+$(B)/zipf/fuzz_repo_zipf.o: $(REPO)/src/random/zipf.cpp
+	@mkdir -p $(dir $@)
+	$(FUZZ_CXX) $(FUZZFLAGS) -c $< -o $@
+$(B)/zipf/zipf_fuzz.o: $(H)/zipf_fuzz.cpp
+	@mkdir -p $(dir $@)
+	$(FUZZ_CXX) $(FUZZFLAGS) -c $< -o $@
+$(B)/zipf/zipf_fuzz: $(B)/zipf/zipf_fuzz.o $(B)/zipf/fuzz_repo_zipf.o
+	$(FUZZ_CXX) -std=c++20 -fsanitize=fuzzer,address,undefined -pthread $^ -o $@
+zipf: $(B)/zipf/zipf_harness $(B)/zipf/zipf_fuzz
 
 # ---------------------------------------------------------------- C20: sequential EpochManager model (rc::state; no prelude)
 define SEQ_VARIANT
